@@ -34,7 +34,6 @@ from bounded.common import JOBS, Budget, bitem, pmap
 PROP = 'C19'
 ALPHA = ['~', 'a', '1', ' ', '\\', 'e', '"', '@', ':']
 SCRATCH_PARENT = '/var/tmp'
-MARKER = re.compile(r'~[^~]\d+~')
 
 # strings outside the alphabet that the layers are sensitive to (applied to every string-level pair and to pack)
 CURATED = ['\\x1b', '\\\\x1b', 'f{a', 'f{a}', '\\e[1m', '\\e[1mab\\e[0m', '\x1b[1mab\x1b[0m', '\x1b', '}', '{', '"}', '}"', 'a\nb',
@@ -487,6 +486,8 @@ CRASH_VARIANTS = {
     'ascii': ('r', 'xyz'),
     'nonascii': ('ré', ['é€', 'aaaaa~']),
     'dict': (None, {'k': [1, 2.5, None], 'é': 'v'}),
+    # thorough only: a record longer than the text layer's 8192-byte read chunk, two-byte characters throughout
+    'big': ('r', ''.join('αβγδεζ'[i % 6] for i in range(4300))),
 }
 
 
@@ -836,7 +837,9 @@ def run(tier, seed, info):
 
     # (c) crash points ---------------------------------------------------------------------------
     ok_writer = writer_matches_pack()
-    cargs = [(i, v, n) for i, (v, n) in enumerate(itertools.product(CRASH_VARIANTS, (0, 1, 2)))]
+    cargs = [(i, v, n) for i, (v, n) in enumerate(itertools.product(('ascii', 'nonascii', 'dict'), (0, 1, 2) if quick else (0, 1, 2, 3)))]
+    if not quick:
+        cargs += [(len(cargs), 'big', 0), (len(cargs) + 1, 'big', 1)]
     cacc = Acc()
     for a in pmap(crash_chunk, cargs):
         cacc.merge(a)
@@ -848,7 +851,9 @@ def run(tier, seed, info):
                           'scenarios: cold reader; the writer then completes the record; live reader that had consumed the complete part; a new '
                           'complete record written behind the partial one. receive() never raises, delivers exactly the complete packets in '
                           'order once, the completed record exactly once, never a packet that was not sent',
-                   bound='every byte offset of the last record, 3 payload shapes, 0..2 earlier records, 4 scenarios', cases=cacc.cases['crash'],
+                   bound='every byte offset of the last record, 3 payload shapes, 0..2 earlier records, 4 scenarios' if quick else
+                         'every byte offset of the last record, 3 payload shapes with 0..3 earlier records + a 8.7 kB record (longer than the '
+                         'text layer read chunk) with 0..1 earlier records, 4 scenarios', cases=cacc.cases['crash'],
                    distinct_nontrivial=cacc.nontrivial['crash'], rule='(scenario, offset) with 0 < offset < len(record)', exhaustive=True,
                    samples=[dict(variant='nonascii', before=1, cut='every offset')], failures=fails)
 
